@@ -4,7 +4,7 @@ import Driver.Util
 /-!
 Line-protocol driver `model_c01` for C01 / C04 / C20 (shared).
 
-  IR <sexpr>      load a module (harness/lib/irpack.py) -> `ok <n> wf=<moduleWF> csm=<moduleConstMatch> dyn=<moduleNoDynFixed> synth=<#sizeIsSynth> fuel=<#fuelOK>` | `bad-ir`
+  IR <sexpr>      load a module (harness/lib/irpack.py) -> `ok <n> wf=<moduleWF> csm=<moduleConstMatch> dyn=<moduleNoDynFixed> synth=<#sizeIsSynth> cov=<#structClosedFolds> fuel=<#fuelOK>` | `bad-ir`
   OBS <Struct> <params…> <hex|->              -> the observation line cppdrv prints for the real code
   EQ  <Struct> <params…> <hexA> <hexB>        -> `EQ a<ok> b<ok> e<..> r<..>` (e/r only when both Ok)
   CP  <Struct> <params…> <hexSrc> <hexDst>    -> `CP t<0|1> <hexDst'> <hexSrc'>`
@@ -182,6 +182,7 @@ def handle (st : State) (line : String) : State × String :=
         "ok " ++ toString m.structs.length ++ " wf=" ++ b01 (moduleWF m) ++ " csm=" ++ b01 (moduleConstMatch m) ++
         " dyn=" ++ b01 (moduleNoDynFixed m) ++
         " synth=" ++ toString (m.structs.filter sizeIsSynth).length ++
+        " cov=" ++ toString (m.structs.filter structClosedFolds).length ++
         " fuel=" ++ toString oks.length)
     | none => (st, "bad-ir")
   | op :: name :: args =>
